@@ -24,12 +24,12 @@ PROP = {
     ],
     "bounds": {"sn_window": "4 (quick) / 5 (thorough)", "CAP": "4 / 6 live map entries", "unwind": 11,
                "window_origins": [0, "2^31-4", "2^32-4", "2^62"]},
-    "outside": ["window origins outside the grid", "more than CAP simultaneously out-of-order SNs per writer"],
+    "outside": ["window origins outside the grid", "more than CAP simultaneously out-of-order SNs per writer", "the Reader object glue (handle_data_msg/handle_gap_msg -> proxy -> TopicCache) with symbolic events and the TopicCache hand-over with symbolic marker/pointer: thorough tier (c01_topic_cache_handover), did not finish under the cap on this box", "SimpleDataReader::try_take_one order (C09 decides only the classification of one change)", "eviction by resource limits (excluded by the statement)"],
     "assumptions": ["std BTreeMap replaced by the array-backed shim under cfg(kani) (validated by SELFTEST; counterexamples replayed on std containers)"],
     "trusted": ["/verif/shim/collections.rs (BTreeMap/BTreeSet stand-in)"],
     "explanation": "C01 kernel tier: RtpsWriterProxy state machine.",
     "technique": "Kani/CBMC bounded symbolic model checking: inductive step from an arbitrary valid RtpsWriterProxy state + operation sequences from the initial state",
-    "level_text": "SAT-solver verdict over all operation arguments and all valid pre-states inside the stated window/CAP bounds.",
-    "level_note": "Trusted: Kani/CBMC/CaDiCaL, the container shim (validated separately), the representation invariant stated in the harness.",
+    "level_text": "SAT-solver verdict over all operation arguments and ALL valid pre-states of the writer proxy inside the stated window/CAP bounds (an inductive step: histories of any length), plus the fragment path (any assembly state, any arriving fragment) shared with C05. This decides the state machine that makes a reliable reader ordered, duplicate-free and hole-free; the glue that feeds it is outside.",
+    "level_note": "KERNEL CLAIM: decided on RtpsWriterProxy and FragmentAssembler (real code, arbitrary valid states); the Reader/TopicCache/SimpleDataReader glue around them is not decided by the quick tier (object harnesses with more than one symbolic step did not finish, DESIGN.md 8.2/8.3). Trusted: Kani/CBMC/CaDiCaL, the container shim (validated by SELFTEST), the representation invariant stated in the harness (sorted map, frontier >= 1, frontier not in map: exactly the reachable states).",
 }
 
